@@ -32,6 +32,29 @@ def rnd_F(g, n, style):
     return g.mat(n, n)
 
 
+def near_duplicates(g, means, Ps):
+    """now and then make a component an exact or nearly exact copy of its predecessor (catches 'reuse the previous
+    component's result when the input looks the same' shortcuts)"""
+    r = g.r
+    if len(means) < 2 or r.random() > 0.3:
+        return "none"
+    i = r.randrange(1, len(means))
+    kind = r.choice(["equal", "equal-cov", "tiny-diff", "equal-mean", "equal-mean", "approx-equal-mean"])
+    if kind == "equal-mean":            # same mean, different covariance
+        means[i] = list(means[i - 1])
+        return kind
+    if kind == "approx-equal-mean":
+        means[i] = [v * (1 + 2.0 ** -30) for v in means[i - 1]]
+        return kind
+    Ps[i] = [list(row) for row in Ps[i - 1]]
+    if kind == "equal":
+        means[i] = list(means[i - 1])
+    elif kind == "tiny-diff":
+        means[i] = [v * (1 + 2.0 ** -30) for v in means[i - 1]]
+        Ps[i] = [[v * (1 + 2.0 ** -28) for v in row] for row in Ps[i]]
+    return kind
+
+
 def round_mat(M):
     """exact rational matrix -> nearest doubles (as floats)"""
     return [[float(x) for x in row] for row in M]
@@ -53,6 +76,7 @@ def ukfp_case(g, tier):
     Ps = [U.scale_cov(U.rnd_psd(g, n, pstyle), d) for _ in range(k)]
     means = [[v * d[i] for i, v in enumerate(g.vec(n))] for _ in range(k)]
     u = [v * d[i] for i, v in enumerate(g.vec(n))] if exo else [0.0] * n
+    dup = near_duplicates(g, means, Ps)
     outw = [r.uniform(0.01, 1.0) for _ in range(k)]
     if variant == 0:
         Q = U.scale_cov(U.rnd_psd(g, n, r.choice(["full", "full", "dyadic", "singular", "zero"])), d)
@@ -64,7 +88,7 @@ def ukfp_case(g, tier):
         Gf, Qf = U.fmat(G), U.fmat(Q)
         Qeff = round_mat(vlib.mmul(vlib.mmul(Gf, Qf), vlib.mT(Gf)))
     meta = {"op": "ukfp", "variant": variant, "n": n, "nz": nz, "k": k, "alpha": alpha, "beta": beta, "kappa": kappa, "skip": skip, "exo": exo,
-            "F": F, "G": G, "Q": Q, "Qeff": Qeff, "u": u, "means": means, "Ps": Ps, "outw": outw, "pstyle": pstyle, "scale": skind}
+            "F": F, "G": G, "Q": Q, "Qeff": Qeff, "u": u, "means": means, "Ps": Ps, "outw": outw, "pstyle": pstyle, "scale": skind, "dup": dup}
     return meta
 
 
@@ -112,6 +136,7 @@ def ukfc_case(g, tier):
     sc = 2.0 ** {"unit": 0, "tiny": -27, "small": -13, "large": 10, "huge": 23}[skind]
     Ps = [U.scale_cov(U.rnd_psd(g, n, pstyle), [sc] * n) for _ in range(k)]
     means = [[v * sc for v in g.vec(n)] for _ in range(k)]
+    dup = near_duplicates(g, means, Ps)
     hstyle = r.choice(["general", "general", "general", "dyadic", "zerorow", "rank1", "zero"])
     if hstyle == "dyadic":
         H = [[g.dyadic(-2, 2, 3) for _ in range(n)] for _ in range(m)]
@@ -141,7 +166,7 @@ def ukfc_case(g, tier):
         Reff = round_mat(vlib.mmul(vlib.mmul(Df, Rf), vlib.mT(Df)))
     alpha, beta, kappa = U.rnd_params(g, n + nz)
     meta = {"op": "ukfc", "variant": variant, "n": n, "nz": nz, "m": m, "k": k, "alpha": alpha, "beta": beta, "kappa": kappa, "fail": fail, "online": online,
-            "H": H, "D": D, "R": R, "Reff": Reff, "y": y, "means": means, "Ps": Ps, "outw": outw, "pstyle": pstyle, "hstyle": hstyle, "scale": skind}
+            "H": H, "D": D, "R": R, "Reff": Reff, "y": y, "means": means, "Ps": Ps, "outw": outw, "pstyle": pstyle, "hstyle": hstyle, "scale": skind, "dup": dup}
     return meta
 
 
@@ -184,19 +209,64 @@ def derive_step(meta, g):
     n, k = meta["n"], r.choice([1, 2, 3, 4])
     st["k"] = k
     st["outw"] = [r.uniform(0.01, 1.0) for _ in range(k)]
+    st["alias"] = r.random() < 0.2          # the same mixture passed as input and output
+    st["cskip"] = 0
+    if meta["op"] == "ukfc" and r.random() < 0.25:
+        st["cskip"] = 2 if meta.get("cskipping") else 1     # GaussianCorrection::skip on / off again
+    st["cskipping"] = (st["cskip"] == 1) or (bool(meta.get("cskipping")) and st["cskip"] != 2)
     if meta["op"] == "ukfp":
         _, d = U.rnd_scales(g, n)
         st["Ps"] = [U.scale_cov(U.rnd_psd(g, n, r.choice(U.PSD_STYLES)), d) for _ in range(k)]
         st["means"] = [[v * d[i] for i, v in enumerate(g.vec(n))] for _ in range(k)]
         st["skip"] = r.random() < 0.15
+        st["mchg"] = False
+        if r.random() < 0.6:
+            # time-varying model: new content of the same sizes from this step on (any subset of F, noise input, Q, u)
+            st["mchg"] = True
+            if r.random() < 0.6:
+                st["F"] = rnd_F(g, n, r.choice(["general", "general", "triangular", "dyadic", "identity"]))
+            if meta["variant"] == 0:
+                if r.random() < 0.8:
+                    st["Q"] = U.scale_cov(U.rnd_psd(g, n, r.choice(["full", "full", "dyadic", "singular", "zero"])), d)
+                st["Qeff"] = st["Q"]
+            else:
+                nz = meta["nz"]
+                if r.random() < 0.8:
+                    _, dz = U.rnd_scales(g, nz)
+                    st["Q"] = U.scale_cov(U.rnd_psd(g, nz, r.choice(["full", "full", "dyadic", "singular", "diag"])), dz)
+                if r.random() < 0.4:
+                    st["G"] = g.mat(n, nz)
+                Gf, Qf = U.fmat(st["G"]), U.fmat(st["Q"])
+                st["Qeff"] = round_mat(vlib.mmul(vlib.mmul(Gf, Qf), vlib.mT(Gf)))
+            if meta["exo"] and r.random() < 0.5:
+                st["u"] = [v * d[i] for i, v in enumerate(g.vec(n))]
     else:
         sc = 2.0 ** SCALE_EXP.get(meta["scale"], 0)
         st["Ps"] = [U.scale_cov(U.rnd_psd(g, n, r.choice(["full", "full", "dyadic", "singular", "diag"])), [sc] * n) for _ in range(k)]
         st["means"] = [[v * sc for v in g.vec(n)] for _ in range(k)]
         st["y"] = [v * sc for v in g.vec(meta["m"])]
         st["fail"] = r.choice([0] * 8 + [1, 2, 3, 4])
-        st["chg"] = False
-        if meta["variant"] == 1 and meta["online"] and r.random() < 0.5:
+        st["chg"] = 0
+        if r.random() < 0.5:
+            # time-varying model: new content of the same sizes (any subset of H, D, R)
+            st["chg"] = 2
+            m_ = meta["m"]
+            if r.random() < 0.6:
+                st["H"] = g.mat(m_, n)
+            if meta["variant"] == 0:
+                if r.random() < 0.8:
+                    st["R"] = U.scale_cov(g.spd(m_, cond=10 ** r.uniform(0, 3)), [sc] * m_)
+                st["Reff"] = st["R"]
+            else:
+                nz = meta["nz"]
+                if r.random() < 0.8:
+                    st["R"] = U.scale_cov(g.spd(nz, cond=10 ** r.uniform(0, 3)), [sc] * nz)
+                if r.random() < 0.4:
+                    d_ = r.choice([1.0, 0.5, 2.0])
+                    st["D"] = [[(d_ if i == j else 0.0) + (g.dyadic(-1, 1, 3) * 0.25 if r.random() < 0.5 else 0.0) for j in range(nz)] for i in range(m_)]
+                Df, Rf = U.fmat(st["D"]), U.fmat(st["R"])
+                st["Reff"] = round_mat(vlib.mmul(vlib.mmul(Df, Rf), vlib.mT(Df)))
+        elif meta["variant"] == 1 and meta["online"] and r.random() < 0.6:
             # the noise input changes size from this step on (what update_weights_online exists for)
             m_ = meta["m"]
             nz = m_ + r.choice([0, 1, 2])
@@ -204,7 +274,7 @@ def derive_step(meta, g):
             d = r.choice([1.0, 0.5, 2.0])
             D = [[(d if i == j else 0.0) + (g.dyadic(-1, 1, 3) * 0.25 if r.random() < 0.5 else 0.0) for j in range(nz)] for i in range(m_)]
             Df, Rf = U.fmat(D), U.fmat(R)
-            st.update({"chg": True, "nz": nz, "R": R, "D": D, "Reff": round_mat(vlib.mmul(vlib.mmul(Df, Rf), vlib.mT(Df)))})
+            st.update({"chg": 1, "nz": nz, "R": R, "D": D, "Reff": round_mat(vlib.mmul(vlib.mmul(Df, Rf), vlib.mT(Df)))})
     return st
 
 
@@ -226,20 +296,34 @@ def seq_line(steps):
             h += U.cm_tokens(m0["G"]) + U.cm_tokens(m0["Q"]) + U.cm_tokens(m0["Qeff"])
         else:
             h += U.cm_tokens(m0["Q"])
-        h += [hexd(x) for x in m0["u"]] + [str(len(steps))]
+        h += [hexd(x) for x in m0["u"]] + [str(len(steps)), str(m0.get("hand", 0))]
         for st in steps:
-            h += ["1" if st["skip"] else "0", str(st["k"])] + bel(st)
+            h += ["1" if st["skip"] else "0", str(st["k"]), "1" if st.get("alias") else "0"]
+            if st.get("mchg"):
+                h += ["1"] + U.cm_tokens(st["F"])
+                if v == 1:
+                    h += U.cm_tokens(st["G"]) + U.cm_tokens(st["Q"]) + U.cm_tokens(st["Qeff"])
+                else:
+                    h += U.cm_tokens(st["Q"])
+                h += [hexd(x) for x in st["u"]]
+            else:
+                h += ["0"]
+            h += bel(st)
     else:
         h = ["ukfcs", str(v), str(n), str(nz), str(m0["m"])] + par + ["1" if m0["online"] else "0"] + U.cm_tokens(m0["H"])
         if v == 1:
             h += U.cm_tokens(m0["D"]) + U.cm_tokens(m0["R"]) + U.cm_tokens(m0["Reff"])
         else:
             h += U.cm_tokens(m0["R"])
-        h += [str(len(steps))]
+        h += [str(len(steps)), str(m0.get("hand", 0))]
         for st in steps:
-            h += [str(st["fail"]), str(st["k"])]
+            h += [str(st["fail"]), str(st["k"]), "1" if st.get("alias") else "0", str(st.get("cskip", 0))]
             if st.get("chg"):
-                h += ["1", str(st["nz"])] + U.cm_tokens(st["D"]) + U.cm_tokens(st["R"]) + U.cm_tokens(st["Reff"])
+                h += [str(int(st["chg"]))] + U.cm_tokens(st["H"])
+                if v == 1:
+                    h += [str(st["nz"])] + U.cm_tokens(st["D"]) + U.cm_tokens(st["R"]) + U.cm_tokens(st["Reff"])
+                else:
+                    h += U.cm_tokens(st["R"])
             else:
                 h += ["0"]
             h += [hexd(x) for x in st["y"]] + bel(st)
@@ -257,6 +341,17 @@ def split_seq(h, nsteps):
 
 
 # ------------------------------------------------------------------------------------------------ parsing
+
+def finite_frac(tok):
+    """exact value of a hex double, None for NaN / inf"""
+    if (int(tok, 16) >> 52) & 0x7ff == 0x7ff:
+        return None
+    return frac_of_hex(tok)
+
+
+def has_nonfinite(means, covs):
+    return any(v is None for m in means for v in m) or any(v is None for P in covs for row in P for v in row)
+
 
 def read_gm(t, p, n, k, conv):
     """a mixture printed with its shape in front; returns (means, covs, weights, p) — means / covs are None when the
@@ -308,17 +403,28 @@ def check_ukfp(meta, h, stats, notes):
     t = h.split()
     xr, xc = int(t[1]), int(t[2])
     p = 3
-    um, uc, uw, p = read_gm(t, p, n, k, frac_of_hex)
-    km, kc, kw, p = read_gm(t, p, n, k, frac_of_hex)
+    um, uc, uw, p = read_gm(t, p, n, k, finite_frac)
+    km, kc, kw, p = read_gm(t, p, n, k, finite_frac)
+    if um is not None and km is not None and (has_nonfinite(um, uc) or has_nonfinite(km, kc)):
+        if has_nonfinite(km, kc):
+            notes["kalman_side_not_finite"] = notes.get("kalman_side_not_finite", 0) + 1
+            return [], None, None
+        return [("prop", "ukf-output-not-finite", "UKFPrediction returned NaN / inf entries for a finite belief and model; KFPrediction returned finite values")], None, None
     if um is None or km is None:
         return [("prop", "predict-shape-differs", "UKFPrediction returned a mixture of another shape than %d components of dimension %d (KFPrediction: %s)" % (k, n, "same problem" if km is None else "expected shape"))], None, None
-    X = vlib.mat_from_cm(t[p:p + xr * xc], xr, xc, frac_of_hex); p += xr * xc
+    X = vlib.mat_from_cm(t[p:p + xr * xc], xr, xc, finite_frac); p += xr * xc
+    if any(v is None for row in X for v in row):
+        # the step's own result is finite (checked above) although sigma_point() on the same input is not: C03's subject
+        notes["sigma_points_not_finite(C03)"] = notes.get("sigma_points_not_finite(C03)", 0) + 1
+        X = None
     if t[p] != "in-same":
         notes["input_modified"] = notes.get("input_modified", 0) + 1
     if uw != kw:
         notes["predict_weights_differ_ukf_vs_kf"] = notes.get("predict_weights_differ_ukf_vs_kf", 0) + 1
     o = {"um": um, "uc": uc, "km": km, "kc": kc, "X": X}
     probs = []
+    if X is None:
+        return [("corr", "ukf-points-not-finite", "sigma_point() on the step's input returns NaN / inf although the step's result is finite (no rounding bound can be derived)")], o, None
     if (xr, xc) != (N, (2 * N + 1) * k):
         probs.append(("corr", "ukf-points-shape", "sigma points of the step's input are %dx%d, model: %dx%d (no rounding bound can be derived)" % (xr, xc, N, (2 * N + 1) * k)))
         return probs, o, None
@@ -435,20 +541,41 @@ def check_ukfc(meta, h, stats, notes):
     t = h.split()
     xr, xc = int(t[1]), int(t[2])
     p = 3
-    um, uc, uw, p = read_gm(t, p, n, k, frac_of_hex)
+    um, uc, uw, p = read_gm(t, p, n, k, finite_frac)
     ulik, p = read_lik(t, p)
-    km, kc, kw, p = read_gm(t, p, n, k, frac_of_hex)
+    km, kc, kw, p = read_gm(t, p, n, k, finite_frac)
     klik, p = read_lik(t, p)
+    if not meta["fail"] and um is not None and km is not None:
+        u_bad = has_nonfinite(um, uc) or (ulik is not None and not all(math.isfinite(v) for v in ulik))
+        k_bad = has_nonfinite(km, kc) or (klik is not None and not all(math.isfinite(v) for v in klik))
+        if k_bad:
+            notes["kalman_side_not_finite"] = notes.get("kalman_side_not_finite", 0) + 1
+            return [], None, None
+        if u_bad:
+            return [("prop", "ukf-output-not-finite", "UKFCorrection returned NaN / inf entries (mean, covariance or likelihood) for a finite belief, model and measurement; KFCorrection returned finite values")], None, None
+    elif meta["fail"] and um is not None and has_nonfinite(um, uc):
+        return [], None, None
     if um is None or km is None:
         if meta["fail"]:
             return [], None, None
         return [("prop", "correct-shape-differs", "UKFCorrection returned a mixture of another shape than %d components of dimension %d (KFCorrection: %s)" % (k, n, "same problem" if km is None else "expected shape"))], None, None
-    X = vlib.mat_from_cm(t[p:p + xr * xc], xr, xc, frac_of_hex); p += xr * xc
+    X = vlib.mat_from_cm(t[p:p + xr * xc], xr, xc, finite_frac); p += xr * xc
+    if any(v is None for row in X for v in row):
+        notes["sigma_points_not_finite(C03)"] = notes.get("sigma_points_not_finite(C03)", 0) + 1
+        X = None
     if t[p] != "in-same":
         notes["input_modified"] = notes.get("input_modified", 0) + 1
+    if "lik2-differs" in t[p:]:
+        return [("prop", "likelihood-query-not-idempotent", "UKFCorrection::getLikelihood() asked twice after the same correction gives two different answers")], None, None
     if uw != kw:
         notes["correct_weights_differ_ukf_vs_kf"] = notes.get("correct_weights_differ_ukf_vs_kf", 0) + 1
     o = {"um": um, "uc": uc, "km": km, "kc": kc, "ulik": ulik, "klik": klik, "X": X}
+    if meta.get("cskipping"):
+        # both corrections are being skipped (GaussianCorrection::skip, a flag a moved object keeps): both hand the
+        # predicted belief over, hence coincide exactly
+        if um != km or uc != kc:
+            return [("prop", "skipped-correction-differs", "correction skipped on both filters (skip(true)%s): UKFCorrection and KFCorrection return different beliefs" % (", UKF object handed over by move construction" if meta.get("hand_obj") else ""))], None, None
+        return [], None, None
     if meta["fail"]:
         # not part of the property: counted only
         pm = [[Fraction(v) for v in meta["means"][i]] for i in range(k)]
@@ -461,6 +588,8 @@ def check_ukfc(meta, h, stats, notes):
             notes["getLikelihood_without_innovations_returns_false"] = notes.get("getLikelihood_without_innovations_returns_false", 0) + 1
         return [], o, None
     probs = []
+    if X is None:
+        return [("corr", "ukf-points-not-finite", "sigma_point() on the step's input returns NaN / inf although the step's result is finite (no rounding bound can be derived)")], o, None
     if (xr, xc) != (N, (2 * N + 1) * k):
         probs.append(("corr", "ukf-points-shape", "sigma points of the step's input are %dx%d, model: %dx%d (no rounding bound can be derived)" % (xr, xc, N, (2 * N + 1) * k)))
         return probs, o, None
@@ -595,13 +724,25 @@ def run(ctx):
     binary = vlib.build_harness("h_ut")
     stats, hist, notes = {}, {}, {}
     g = ctx.gen("ukf")
-    NP, NC = ctx.n(90, 600), ctx.n(110, 800)
+    NP, NC = ctx.n(70, 600), ctx.n(90, 800)
     objects = []
     for mk in [ukfp_case] * NP + [ukfc_case] * NC:
         st = [mk(g, ctx.tier)]
-        if g.r.random() < (0.85 if st[0].get("online") else 0.4):
+        if g.r.random() < (0.85 if st[0].get("online") else 0.5):
             for _ in range(g.r.choice([1, 2, 3])):
                 st.append(derive_step(st[-1], g))
+        if len(st) > 1 or g.r.random() < 0.3:
+            # object hand-over (move construction before / after the first step; move assignment for predictions)
+            st[0]["hand"] = g.r.choice([0, 1, 1, 2, 2] + ([3] if st[0]["op"] == "ukfp" else []))
+            st[0]["alias"] = g.r.random() < 0.2
+            if st[0]["op"] == "ukfc" and g.r.random() < 0.15:
+                st[0]["cskip"] = 1
+                st[0]["cskipping"] = True
+                for i_ in range(1, len(st)):      # the derived steps were drawn before: recompute the skip state
+                    prev_ = st[i_ - 1]
+                    if st[i_].get("cskip") == 1 and prev_.get("cskipping"):
+                        st[i_]["cskip"] = 2
+                    st[i_]["cskipping"] = (st[i_].get("cskip") == 1) or (bool(prev_.get("cskipping")) and st[i_].get("cskip") != 2)
         objects.append(st)
     import json
     ncorpus = 0
@@ -617,7 +758,8 @@ def run(ctx):
         objects = [rm["steps"] if isinstance(rm, dict) and "steps" in rm else [rm]]
     ohl = []
     for st in objects:
-        if len(st) == 1:
+        plain = len(st) == 1 and not st[0].get("hand") and not st[0].get("alias") and not st[0].get("cskip")
+        if plain:
             ohl.append((ukfp_lines(st[0]) if st[0]["op"] == "ukfp" else ukfc_lines(st[0]))[0])
         else:
             ohl.append(seq_line(st))
@@ -625,19 +767,33 @@ def run(ctx):
     # flatten to single steps
     metas, hl, hout, snaps = [], [], [], []
     for st, line, h in zip(objects, ohl, ohout):
-        outs = split_seq(h, len(st)) if len(st) > 1 else [h]
+        outs = split_seq(h, len(st)) if line.startswith("ukfps") or line.startswith("ukfcs") else [h]
         sn = U.snap({"steps": st})
         for si, (m_, ho) in enumerate(zip(st, outs)):
             m_ = dict(m_)
             m_["step"] = si
+            m_["hand_obj"] = st[0].get("hand", 0)
             metas.append(m_)
             hl.append(line)
             hout.append(ho)
             snaps.append(sn)
         hist["steps-per-object=%d" % len(st)] = hist.get("steps-per-object=%d" % len(st), 0) + 1
-        nchg = sum(1 for m_ in st if m_.get("chg"))
+        if st[0].get("hand"):
+            kk = "hand-over:%s:%s" % ("prediction" if st[0]["op"] == "ukfp" else "correction", {1: "move-constructed before first step", 2: "move-constructed between steps", 3: "move-assigned between steps"}[st[0]["hand"]])
+            hist[kk] = hist.get(kk, 0) + 1
+        for m_ in st:
+            if m_.get("alias"):
+                kk = "aliasing:%s(b, b)" % ("predict" if m_["op"] == "ukfp" else "correct")
+                hist[kk] = hist.get(kk, 0) + 1
+            if m_.get("cskipping"):
+                hist["correction-skip-flag-set"] = hist.get("correction-skip-flag-set", 0) + 1
+        nchg = sum(1 for m_ in st if m_.get("chg") == 1)
         if nchg:
             hist["online-weights:noise-dimension-changed-between-steps"] = hist.get("online-weights:noise-dimension-changed-between-steps", 0) + nchg
+        for m_ in st:
+            if m_.get("mchg") or m_.get("chg") == 2:
+                kk = "time-varying-model:%s-%s" % ("prediction" if m_["op"] == "ukfp" else "correction", "augmented" if m_["variant"] else "additive")
+                hist[kk] = hist.get(kk, 0) + 1
     first, dl, dmap = [], [], {}
     for ci, (meta, h) in enumerate(zip(metas, hout)):
         if meta["op"] == "ukfp":
@@ -656,6 +812,8 @@ def run(ctx):
         hist["components=%d" % meta["k"]] = hist.get("components=%d" % meta["k"], 0) + 1
         hist["P=" + meta["pstyle"]] = hist.get("P=" + meta["pstyle"], 0) + 1
         hist["scale=" + meta.get("scale", "?")] = hist.get("scale=" + meta.get("scale", "?"), 0) + 1
+        if meta.get("dup", "none") != "none" and meta.get("step", 0) == 0:
+            hist["near-duplicate components:" + meta["dup"]] = hist.get("near-duplicate components:" + meta["dup"], 0) + 1
         first.append((probs, o, Bs))
         if o is not None and Bs is not None:
             lines = ukfp_lines(meta, Bs) if meta["op"] == "ukfp" else ukfc_lines(meta, Bs)
